@@ -7,6 +7,9 @@ PROPS = {
     'C09': ('contracts.c09', 'proof',
             'acceptance rule and invocation: matches_golden/check/execute/'
             'get_tmp_filename against the documented rule'),
+    'C10': ('contracts.c10', 'proof',
+            'time/memory limit wiring: execute/limit_resources/'
+            'do_golden_runs/matches_golden on timed-out records'),
 }
 
 
